@@ -350,7 +350,7 @@ Section Run.
                       end) us l ;;
               Ok (VTuple r)
           | VStr s => uk_str u s
-          | _ => match us with [] => Ok (VTuple []) | _ => Exn XTypeError end
+          | _ => r <- none_tail us ;; Ok (VTuple r)     (* only constant positions never index the value *)
           end
       | UDictComp ku vu =>
           match d with
@@ -487,7 +487,7 @@ Section Run.
                       end) ts l ;;
               Ok (VTuple r)
           | VStr s => ref_dec_str t s
-          | _ => match ts with [] => Ok (VTuple []) | _ => Exn XTypeError end
+          | _ => r <- none_tail_t ts ;; Ok (VTuple r)
           end
       | SDict kt vt =>
           match d with
